@@ -4,6 +4,8 @@ Two layers, both compared with the Lean model (`lean/PydraModel/Envs/Lmod.lean`,
 
   parser  the regex source string read from `Lmod.execute` on this run, applied with CPython's `re.findall` to
           adversarial text  vs  the hand-written matcher `parseLmod`
+  hist    several jobs on ONE `lmod.Environment` object, the caller environment / `modules` changed in between, the fake
+          lmod computing prepends from the environment it runs in  vs  `runObj stepTree` (= single-run semantics per job)
   e2e     a fake `$MODULESHOME/libexec/lmod` printing generated assignment lines; a shell task whose executable is a
           dumper script run through `lmod.Environment` in a generated caller environment; the child's argv and
           environment (`env -0`) vs  `lmodEnv caller out`  vs  the spec oracle
@@ -35,17 +37,21 @@ META = {
     "(C39_parse, C39_rendered); witnesses that a value containing a quote or an escape is cut or not unescaped by the "
     "non-greedy regex (C39_witness_quote, C39_witness_escaped; known finding D23q).  The regex string, the expression the "
     "child environment starts from and the argv expression are regenerated from pydra/environments/lmod.py on every run "
-    "and pinned by `rfl` (C39_regex_pinned, C39_source_pinned, C39_space_pinned).  The failure test on the command's return code is regenerated "
+    "and pinned by `rfl` (C39_regex_pinned, C39_source_pinned, C39_space_pinned).  No state is carried between jobs on one Lmod object: the k-th job of "
+    "any history gets the single-run semantics on the k-th (modules, caller environment) (C39_history_independent, "
+    "C39_prefix_irrelevant; object fields / self-writes / load call regenerated: C39_stateless_pinned; witness for a memoising "
+    "variant C39_witness_memo).  The failure test on the command's return code is regenerated "
     "and shown to fail on every non-zero status, death by signal included (C39_rc_pinned, C39_nonzero_fails); the end-to-end "
     "runs include commands that exit non-zero or kill themselves.",
     "note": "Trusted: Lean kernel; hand-written matcher for the regex (compared with CPython's re on the extracted regex string on "
     "every run); the fake lmod and the dumper; /bin/sh (dash) resets PWD, which is therefore excluded from the comparison.",
-    "rule": "parser case = text; e2e case = (caller environment, intended assignments with quoting/spelling per line, junk lines, argv); "
+    "rule": "history case = 2-4 jobs on one Lmod object with (caller environment, modules) per job, non-trivial when something changed between jobs; parser case = text; e2e case = (caller environment, intended assignments with quoting/spelling per line, junk lines, argv); "
     "distinct by canonical JSON; an e2e case is non-trivial when at least one assignment is read and the caller environment has "
     "a variable the assignments do not touch or one they override",
     "assumptions": [
         "variable names are shell identifiers ([A-Za-z_][A-Za-z0-9_]*): /bin/sh, used as the dumper's interpreter, does not pass on other names",
         "PWD is excluded from the comparison (the dumper's shell sets it); values contain no NUL",
+        "in history cases the caller environment always has PATH (the fake lmod's /bin/sh substitutes a default PATH when there is none)",
         "module output is UTF-8 text; only `os.environ[...] = ...` assignments are in scope (Lmod's `del os.environ[...]` for unsets is outside the property)",
     ],
     "trusted": ["model of Lmod.execute's regex written by hand (Envs/Lmod.lean), compared with CPython re on every run"],
@@ -65,6 +71,10 @@ OBLIGATIONS = [
         "C39_parse",
         "C39_rendered",
         "C39_plain_unescaped",
+        "C39_stateless_pinned",
+        "C39_history_independent",
+        "C39_prefix_irrelevant",
+        "C39_witness_memo",
         "C39_rc_pinned",
         "C39_nonzero_fails",
         "C39_witness_quote",
@@ -334,6 +344,144 @@ def run_parser(ctx, texts: list[str]):
         ctx.judge({"kind": "parser", "text": t}, impl, model, True, nontrivial=len(impl) > 0, what="re.findall(regex of Lmod.execute) vs parseLmod")
 
 
+# --------------------------------------------------------------------------------------
+# histories: several jobs on ONE Lmod object, the caller's environment (and `modules`) changed in between; the fake
+# lmod computes prepends from the environment it runs in
+
+MODSPECS = {
+    "tool/1.0": [["prepend", "PATH", "/opt/tool/1.0/bin"], ["setenv", "TOOL_HOME", "/opt/tool/1.0"]],
+    "libs/2.3": [["prepend", "LD_LIBRARY_PATH", "/opt/libs/2.3/lib"]],
+    "gcc/9": [["prepend", "PATH", "/opt/gcc/9/bin"], ["prepend", "MANPATH", "/opt/gcc/9/man"], ["setenv", "CC", "gcc-9"]],
+    "both": [["prepend", "PATH", "/b/bin"], ["prepend", "PATH", "/b/sbin"], ["setenv", "X1", "from both"]],
+}
+HIST_KEYS = ["PATH", "LD_LIBRARY_PATH", "MANPATH", "HOME", "KEEPME", "CC", "X1", "TOOL_HOME", "LANG"]
+
+
+def gen_hist(rng) -> dict:
+    nruns = rng.choice([2, 2, 3, 4])
+    runs = []
+    caller = {k: "/" + "".join(rng.choice(SAFE) for _ in range(rng.choice([1, 3, 6]))) for k in rng.sample(HIST_KEYS, rng.choice([1, 2, 4]))}
+    caller.setdefault("PATH", "/usr/bin:/bin")  # /bin/sh (the fake lmod's interpreter) invents a PATH when there is none
+    mods = rng.sample(sorted(MODSPECS), rng.choice([1, 1, 2]))
+    for _ in range(nruns):
+        runs.append({"caller": dict(caller), "modules": list(mods)})
+        # what a user does between two jobs: extend a path variable, set or drop a variable, ask for other modules
+        for _ in range(rng.choice([1, 1, 2])):
+            r = rng.random()
+            k = rng.choice(HIST_KEYS)
+            if r < 0.4:
+                caller[k] = "/new" + str(rng.randrange(9)) + ((":" + caller[k]) if caller.get(k) else "")
+            elif r < 0.6:
+                caller[k] = "/set" + str(rng.randrange(9))
+            elif r < 0.75 and k != "PATH":
+                caller.pop(k, None)
+            elif r < 0.9:
+                mods = rng.sample(sorted(MODSPECS), rng.choice([1, 2]))
+    return {"kind": "hist", "runs": runs, "argv": [rng.choice(["a", "-x", "7"]) for _ in range(rng.choice([0, 1, 2]))]}
+
+
+def intended(modules: list[str], env: dict) -> dict:
+    """what loading the modules in environment `env` means (independent of lmod's printing and of the regex)"""
+    out = dict(env)
+    for m in modules:
+        for op, var, val in MODSPECS[m]:
+            out[var] = val if op == "setenv" else (val + ":" + out[var] if out.get(var) else val)
+    return out
+
+
+class HistRig:
+    def __init__(self, ctx):
+        import tempfile
+
+        self.root = Path(tempfile.mkdtemp(prefix="c39h-", dir=ctx.scratch))
+        self.mods = self.root / "mods"
+        for name, spec in MODSPECS.items():
+            f = self.mods / name
+            f.parent.mkdir(parents=True, exist_ok=True)
+            f.write_text("".join(" ".join(l) + "\n" for l in spec))
+        self.lmod_argv = self.root / "lmod.argv"
+        self.argv_file = self.root / "child.argv"
+        self.env_file = self.root / "child.env"
+        self.home = self.root / "modhome"
+        self.lmod = envs.make_dyn_lmod(self.home, self.mods, self.lmod_argv)
+        self.dumper = envs.make_dumper(self.root / "dumper.sh", self.argv_file, self.env_file)
+        self.hash_cache = self.root / "hashcache"
+        self.hash_cache.mkdir()
+        self.n = 0
+        from pydra.compose import shell
+
+        self.Task = shell.define(str(self.dumper))
+
+    def fixed_env(self) -> dict:
+        return {"MODULESHOME": str(self.home), "PYDRA_HASH_CACHE": str(self.hash_cache)}
+
+    def run_history(self, case: dict):
+        import subprocess
+
+        from pydra.environments import lmod
+
+        obj = None
+        out = []
+        for r in case["runs"]:
+            env = dict(r["caller"])
+            env.update(self.fixed_env())
+            # what the lmod executable answers for (modules, this environment): asked directly, outside pydra
+            text = subprocess.run([str(self.lmod), "python", "load", *r["modules"]], env=env, capture_output=True, text=True, timeout=120).stdout
+            for f in (self.argv_file, self.env_file, self.lmod_argv):
+                f.unlink(missing_ok=True)
+            self.n += 1
+            exc = None
+            with mock.patch.dict(os.environ, env, clear=True):
+                if obj is None:
+                    obj = lmod.Environment(modules=list(r["modules"]))  # ONE object for the whole history
+                else:
+                    obj.modules = list(r["modules"])
+                try:
+                    self.Task(append_args=list(case["argv"]) + [f"run{self.n}"])(cache_root=self.root / f"cache{self.n}", worker="debug", environment=obj)
+                except Exception as e:  # noqa: BLE001
+                    exc = core.exc_tag(e)
+            out.append({"env": envs.read_env(self.env_file), "argv": envs.read_nul(self.argv_file), "exc": exc, "text": text, "full_caller": env, "tag": f"run{self.n}"})
+        return out
+
+
+def run_hist(ctx, rig: HistRig, cases: list[dict]):
+    obs = [rig.run_history(c) for c in cases]
+    q = []
+    for c, o in zip(cases, obs):
+        q.append({"op": "lmod_history", "runs": [{"mods": r["modules"], "caller": [[k, v] for k, v in x["full_caller"].items()], "text": x["text"]} for r, x in zip(c["runs"], o)]})
+    ans = ctx.driver("Envs", q)
+    for k, (c, o) in enumerate(zip(cases, obs)):
+        impl = [{"env": canon_env(x["env"]), "exc": x["exc"]} for x in o]
+        model = None
+        if ans is not None:
+            if "error" in ans[k]:
+                ctx.tie_broken.append({"kind": "model-driver", "detail": ans[k]["error"], "case": c})
+            else:
+                model = [{"env": sorted(p for p in e if p[0] != "PWD"), "exc": None} for e in ans[k]["tree"]]
+        # oracle: every job sees ITS caller environment with the modules loaded in THAT environment, and its own argv
+        ok = True
+        for r, x in zip(c["runs"], o):
+            want = intended(r["modules"], x["full_caller"])
+            want.pop("PWD", None)
+            ok = ok and x["exc"] is None and x["env"] is not None and canon_env(x["env"]) == sorted([a, b] for a, b in want.items())
+            ok = ok and x["argv"] == list(c["argv"]) + [x["tag"]]
+        changed = any(a["caller"] != b["caller"] or a["modules"] != b["modules"] for a, b in zip(c["runs"], c["runs"][1:]))
+        ctx.count(f"hist:runs={len(c['runs'])}")
+        ctx.count("hist:env-or-modules-changed" if changed else "hist:unchanged")
+        ctx.judge(c, impl, model, ok, nontrivial=changed, what="jobs on one Lmod object")
+
+
+W_HIST = {
+    "kind": "hist",
+    "runs": [
+        {"caller": {"PATH": "/usr/bin:/bin", "HOME": "/home/u"}, "modules": ["tool/1.0"]},
+        {"caller": {"PATH": "/home/u/bin:/usr/bin:/bin", "HOME": "/home/u", "LD_LIBRARY_PATH": "/usr/lib"}, "modules": ["tool/1.0"]},
+        {"caller": {"PATH": "/home/u/bin:/usr/bin:/bin", "HOME": "/home/u", "LD_LIBRARY_PATH": "/usr/lib"}, "modules": ["tool/1.0", "libs/2.3"]},
+    ],
+    "argv": ["a"],
+}
+
+
 # corpus: the D23 witness of DESIGN §7 (now a regression case for the inheritance; its quoting half is D23q)
 W_INHERIT = {
     "kind": "e2e",
@@ -371,11 +519,14 @@ def correspondence(ctx):
     run_e2e(ctx, rig, [W_INHERIT, W_QUOTE, dict(W_INHERIT, end=["kill", 9]), dict(W_INHERIT, end=["exit", 2])])
     n_e2e = ctx.pick(220, 1200)
     run_e2e(ctx, rig, [gen_e2e(ctx.rng, 0.25) for _ in range(n_e2e)])
+    hrig = HistRig(ctx)
+    run_hist(ctx, hrig, [W_HIST] + [gen_hist(ctx.rng) for _ in range(ctx.pick(25, 300))])
     n_p = ctx.pick(4000, 60000)
     run_parser(ctx, [gen_parser_text(ctx.rng) for _ in range(n_p)])
 
 
 def search(ctx):
+    run_hist(ctx, HistRig(ctx), [W_HIST] + [gen_hist(ctx.rng) for _ in range(ctx.pick(40, 200))])
     rig = Rig(ctx)
     run_e2e(ctx, rig, [gen_e2e(ctx.rng, 0.0) for _ in range(ctx.pick(150, 600))])
 
@@ -384,5 +535,7 @@ def replay(ctx, rec):
     c = rec["case"]
     if c.get("kind") == "parser":
         run_parser(ctx, [c["text"]])
+    elif c.get("kind") == "hist":
+        run_hist(ctx, HistRig(ctx), [c])
     else:
         run_e2e(ctx, Rig(ctx), [c])
